@@ -470,9 +470,9 @@ impl World {
         if let Some(e) = e {
             let mut ks = kt::key_states(&e);
             ks.sort_by(|a, b| (a.3, &a.0).cmp(&(b.3, &b.0)));
-            for (kid, usage, status, vf) in ks {
+            for (kid, usage, status, vf, sc) in ks {
                 let n = self.names.get('d', &kid);
-                o.insert(n, json!({"u": usage, "st": status, "vf": relsecs(vf as i64).max(-1)}));
+                o.insert(n, json!({"u": usage, "st": status, "vf": relsecs(vf as i64).max(-1), "sc": relsecs(sc as i64).max(-1)}));
             }
         }
         J::Object(o)
@@ -485,9 +485,9 @@ impl World {
         if let Some(e) = e {
             let mut ks = kt::key_states(&e);
             ks.sort_by(|a, b| (a.3, &a.0).cmp(&(b.3, &b.0)));
-            for (kid, usage, status, vf) in ks {
+            for (kid, usage, status, vf, sc) in ks {
                 let n = self.key_name_u(&kid, usage);
-                o.insert(n, json!({"u": usage, "st": status, "vf": relsecs(vf as i64).max(-1)}));
+                o.insert(n, json!({"u": usage, "st": status, "vf": relsecs(vf as i64).max(-1), "sc": relsecs(sc as i64).max(-1)}));
             }
         }
         J::Object(o)
